@@ -118,6 +118,42 @@ static void history(vt::Rng& r, int nops) {
   fill_pattern(dst, r, (int)r.below(3));
   fill_pattern(src, r, (int)r.below(3));
   fill_pattern(mask, r, mask.get_has_alpha() ? 1 : 0);  // the mask's own alpha is irrelevant to the rule
+  bool mask_wide = false;
+  if (r.chance(30)) {
+    mask_wide = true;
+    // a mask with wider channels.  Pixels that are "white" under one reading only (all channels 0xFF / all channels at the
+    // maximum) are avoided; every other pixel is not white and lets the source through: in particular those whose channels
+    // all END in 0xFF, or whose channels combine (and / or / sum) to 0xFF or to the maximum
+    uint8_t cw = (uint8_t[]){16, 32, 64}[r.below(3)];
+    mask.set_channel_width(cw);
+    uint64_t top = cw == 16 ? 0xFFFF : 0x3FFFFFFF;
+    for (ssize_t y = 0; y < (ssize_t)mask.get_height(); y++)
+      for (ssize_t x = 0; x < (ssize_t)mask.get_width(); x++) {
+        uint64_t c[3];
+        do {
+          switch (r.below(5)) {
+            case 0: {  // low bytes FF, upper parts with an empty intersection
+              uint64_t hi[3] = {r.below(top >> 8), r.below(top >> 8), 0};
+              hi[2] = r.below(top >> 8) & ~(hi[0] & hi[1]);
+              for (int k = 0; k < 3; k++) c[k] = (hi[k] << 8) | 0xFF;
+              break;
+            }
+            case 1:
+              for (int k = 0; k < 3; k++) c[k] = r.chance(70) ? 0xFF : r.chance(50) ? 0x1FF : 0xFE;
+              break;
+            case 2:
+              for (int k = 0; k < 3; k++) c[k] = r.chance(70) ? top : r.chance(50) ? top - 1 : 0xFF;
+              break;
+            case 3:
+              for (int k = 0; k < 3; k++) c[k] = 1ULL << r.below(cw == 16 ? 16 : 30);
+              break;
+            default:
+              for (int k = 0; k < 3; k++) c[k] = r.below(top + 1);
+          }
+        } while ((c[0] == 0xFF && c[1] == 0xFF && c[2] == 0xFF) || (c[0] == c[1] && c[1] == c[2] && c[0] >= 0xFFFF));
+        mask.write_pixel(x, y, c[0], c[1], c[2], 0xFF);
+      }
+  }
   ev_new("dst", dst);
   ev_new("src", src);
   ev_new("mask", mask);
@@ -185,6 +221,18 @@ static void history(vt::Rng& r, int nops) {
         // keep at most one astronomically large coordinate per axis so that 32-bit arithmetic in the checker cannot overflow
         if (labs(b.a[0]) > 1000 && labs(b.a[4]) > 1000) b.a[4] = 1;
         if (labs(b.a[1]) > 1000 && labs(b.a[5]) > 1000) b.a[5] = 1;
+        if (mask_wide && r.chance(60)) {  // give a wide mask a good chance to be consulted: a rectangle it covers
+          long mw = min<long>(mask.get_width(), src.get_width()), mh = min<long>(mask.get_height(), src.get_height());
+          b.op = "maski";
+          if (mw > 0 && mh > 0) {
+            b.a[0] = (long)r.range(-1, W);
+            b.a[1] = (long)r.range(-1, H);
+            b.a[4] = (long)r.below(mw);
+            b.a[5] = (long)r.below(mh);
+            b.a[2] = 1 + (long)r.below(mw - b.a[4]);
+            b.a[3] = 1 + (long)r.below(mh - b.a[5]);
+          }
+        }
         if (r.chance(50) && src.get_width() && src.get_height()) {
           uint64_t p[4];
           src.read_pixel(r.below(src.get_width()), r.below(src.get_height()), &p[0], &p[1], &p[2], &p[3]);
